@@ -20,6 +20,17 @@ claim("C04", "CFG must-pass queries + lockset + constant-mask folding over go/ss
       "Not covered: that the kernel delivers the event, eventual delivery itself, edge-triggered timing.",
       "DESIGN.md §4 C04")
 
+claim("C05", "guarded-by lockset + hand-over shape (head-starts-drainer / atomic drain region) + frozen routing sets over go/ssa",
+      "Decides the necessary shape of per-connection job serialisation on every path: jobList only under Conn.mux; Execute's closed test and append in one critical section, closed edge inert; a drainer is started only on 'list was empty' decided inside the append's critical section (Execute and MustExecute); the drainer's exhaustion test and list reset are one critical section, the job runs with the mutex released inside its own recover frame, the index advances by one; MustExecute never looks at closed; the nbhttp close hook does all its work inside a MustExecute job; poller-path parsers and WebSocket connections use the bound Execute of the registered connection.",
+      "Not covered: the hand-over under all interleavings (model-checking statement), user-supplied executors.",
+      "DESIGN.md §4 C05")
+
+claim("C19", "CFG pairing/must-pass + atomic-only + hand-over shape over go/ssa",
+      "Decides on every path of taskpool and timer: each failed fork is undone before the next fork/return and nothing else decrements the running-worker counter; the worker defers its decrement; the go statement is guarded by the atomic increment's own result < bound; Stop saturates before close; tasks are invoked only in recover frames; a task received from the queue reaches exactly one of fork/caller; the counter is atomic-only; Timer.Async's head-starts-drainer hand-over has the atomic shape. Two genuine defects found and repaired (known_findings.json).",
+      "Not covered: exactly-once/FIFO under all interleavings, submissions racing Stop, the barrier-of-waiting-tasks behaviour itself.",
+      "DESIGN.md §4 C19")
+
 PENDING = "check not built yet in this round (static rule tables are being added property by property; see DESIGN.md §4 for the planned obligations)"
-for pid in ["C02","C05","C06","C07","C08","C09","C10","C11","C12","C13","C14","C15","C16","C18","C19","C20"]:
-    na(pid, PENDING)
+for pid in ["C%02d" % i for i in range(1, 21)]:
+    if pid not in PROPS:
+        na(pid, PENDING)
